@@ -80,3 +80,66 @@ pub fn single_entry(_a: &Value) -> Value {
     json!({"scenario":"c14_single_entry","observed":{"deviations":bad},"violation":violation,
            "why": if violation {"request authority is rewritten before matching (an entry no longer admits its own text)"} else {""}})
 }
+
+fn run_hosts(allow: &[&str], hosts: &[&str], uri: &str) -> (u16, usize) {
+    let hits = Arc::new(AtomicUsize::new(0));
+    let h2 = hits.clone();
+    let inner = tower::service_fn(move |_req: HttpRequest<HttpBody>| {
+        let h = h2.clone();
+        async move {
+            h.fetch_add(1, Ordering::SeqCst);
+            Ok::<_, std::convert::Infallible>(HttpResponse::new(HttpBody::empty()))
+        }
+    });
+    let layer = HostFilterLayer::new(allow.iter().copied()).expect("valid allow list");
+    let mut svc = layer.layer(inner);
+    let mut b = http::Request::builder().method("POST").uri(uri);
+    for h in hosts {
+        b = b.header("host", *h);
+    }
+    let req = b.body(HttpBody::empty()).unwrap();
+    let rt = tokio::runtime::Builder::new_current_thread().enable_all().build().unwrap();
+    let rp = rt.block_on(async { svc.ready().await.unwrap().call(req).await.unwrap() });
+    (rp.status().as_u16(), hits.load(Ordering::SeqCst))
+}
+
+/// where the authority comes from: one Host header, the URI, both (which must agree), several Host headers (no single authority); and what an
+/// enabled filter with nothing on its list admits (nothing)
+pub fn authority_sources(_a: &Value) -> Value {
+    let allow = ["example.com"];
+    // (Host headers, uri, expected status, expected handler runs)
+    let cases: Vec<(Vec<&str>, &str, u16, usize)> = vec![
+        (vec!["example.com"], "/", 200, 1),
+        (vec![], "http://example.com/", 200, 1),
+        (vec!["example.com"], "http://example.com/", 200, 1),
+        (vec!["example.com"], "http://evil.com/", 400, 0),
+        (vec!["evil.com"], "http://example.com/", 400, 0),
+        (vec![], "/", 400, 0),
+        (vec!["evil.com"], "/", 403, 0),
+        (vec!["EXAMPLE.com"], "/", 403, 0),
+    ];
+    let mut bad = vec![];
+    for (hosts, uri, status, runs) in &cases {
+        let got = run_hosts(&allow, hosts, uri);
+        if got != (*status, *runs) {
+            bad.push(json!({"hosts":hosts,"uri":uri,"expected":[status,runs],"got":[got.0,got.1]}));
+        }
+    }
+    // several Host headers: never admitted, whichever comes first
+    for hosts in [vec!["example.com", "evil.com"], vec!["evil.com", "example.com"], vec!["example.com", "example.com:8080"]] {
+        let got = run_hosts(&allow, &hosts, "/");
+        if got.1 != 0 || !(got.0 == 400 || got.0 == 403) {
+            bad.push(json!({"hosts":hosts,"expected":"400/403 and no handler","got":[got.0,got.1]}));
+        }
+    }
+    // an enabled filter whose list is empty admits nothing
+    for host in ["example.com", "localhost", "127.0.0.1:80"] {
+        let got = run_hosts(&[], &[host], "/");
+        if got != (403, 0) {
+            bad.push(json!({"allow":[],"host":host,"expected":[403,0],"got":[got.0,got.1]}));
+        }
+    }
+    let violation = !bad.is_empty();
+    json!({"scenario":"c14_authority_sources","observed":{"deviations":bad},"violation":violation,
+           "why": if violation {"the host filter admits / refuses against the rule for where the authority comes from"} else {""}})
+}
